@@ -35,7 +35,21 @@ def generate(ctx):
         nontriv = False
         equalw = rng.random() < 0.35      # several single-record queries whose insertions have the same total length at different places
         ilen = rng.randint(1, 4)
-        for qi in range(rng.randint(2, 4) if equalw else rng.randint(1, 3)):
+        longshort = (not equalw) and rng.random() < 0.2
+        if longshort:
+            # pairs of DEcreasing width handled one after the other by one worker: the first carries an insertion (and sometimes
+            # a deletion) within the last reference bases, the following ones are narrower
+            k = rng.randint(1, 3)
+            tail = rng.randint(1, 3)
+            cigs = [[("M", L - tail), ("I", k), ("M", tail)], [("M", L - tail - 2), ("D", 1), ("M", 1), ("I", k), ("M", tail)],
+                    [("M", L - 1), ("I", k), ("M", 1)]]
+            recs.append({"name": "long0", "flag": 0, "pos": 0, "cigar": rng.choice(cigs), "seq": ""})
+            for qi in range(rng.randint(1, 3)):
+                recs.append({"name": "short%d" % qi, "flag": 0, "pos": 0, "cigar": [("M", L)] if rng.random() < 0.7 else [("M", 3), ("I", 1), ("M", L - 3)], "seq": ""})
+            for r in recs:
+                r["seq"] = samgen.build_seq(rng, r["cigar"], 0, genome)
+            nontriv = True
+        for qi in range(0 if longshort else rng.randint(2, 4) if equalw else rng.randint(1, 3)):
             if equalw:
                 a = rng.randint(1, L - 2) if rng.random() < 0.85 else 0     # a = 0: insertion before the first reference base (ins:0:n)
                 cig = ([("M", a)] if a else []) + [("I", ilen), ("M", L - a)] if rng.random() < 0.8 else [("M", L)]
@@ -109,7 +123,7 @@ def generate(ctx):
             e = rng.randint(L // 2, L)          # --end alone
         go = {"id": cid, "op": "samvariants", "sam": cm.b64(samb), "ref": cm.b64(refb if from_file else b""), "anno": cm.b64(annob),
               "suffix": suffix, "ref_from_file": from_file, "start": s, "end": e, "append_snps": append, "aggregate": False,
-              "threads": 1 if equalw else rng.choice([1, 2, 4])}
+              "threads": 1 if (equalw or longshort) else rng.choice([1, 2, 4])}
         def coq(obs, recs=recs, s=s, e=e, append=append):
             ex = obs.get("extra") or {}
             return "(%s, %s, %s, %s, (false, %s), ((%d)%%Z, (%d)%%Z), (0, 0%%Z, 0%%Z), %s)" % (
